@@ -239,9 +239,11 @@ def parse_segment(text, version=None, encoding_chars=None, validation_level=None
     validation_level = _get_validation_level(validation_level)
 
     segment_name = text[:3]
-    text = text[4:] if segment_name != 'MSH' else text[3:]
     segment = Segment(segment_name, version=version, validation_level=validation_level,
                       reference=reference)
+    # (the segment normalises its name: 'msh' is the header segment too)
+    segment_name = segment.name
+    text = text[4:] if segment_name != 'MSH' else text[3:]
     segment.children = parse_fields(text, segment_name, version, encoding_chars, validation_level,
                                     segment.structure_by_name, segment.allow_infinite_children)
     return segment
